@@ -2780,6 +2780,10 @@ func (s *ImmuStore) ExportTx(txID uint64, allowPrecommitted bool, skipIntegrityC
 		s._valBsMux.Lock()
 
 		var valBuf []byte
+		if e.vLen > s.maxValueLen {
+			s._valBsMux.Unlock()
+			return nil, fmt.Errorf("%w: value length exceeds the maximum value length", ErrCorruptedData)
+		}
 		if e.vLen > len(s._valBs) {
 			valBuf = make([]byte, e.vLen)
 		} else {
@@ -3278,6 +3282,11 @@ func (s *ImmuStore) ReadValue(entry *TxEntry) ([]byte, error) {
 		// But current changes in ExportTx with truncated transactions are not providing the value length
 		// for truncated transactions, making it impossible to differentiate an empty value with a truncated one
 		return nil, nil
+	}
+
+	if entry.vLen > s.maxValueLen {
+		// the length is read from the tx log: a stored value can not be longer than the maximum accepted on write
+		return nil, fmt.Errorf("%w: value length exceeds the maximum value length", ErrCorruptedData)
 	}
 
 	b := make([]byte, entry.vLen)
